@@ -611,6 +611,9 @@ func (m *monC04) AfterBlock(w *World) {
 		if err1 != nil || err2 != nil || lq.Amount.Amount.BigInt().Cmp(l) != 0 || sq.Amount.Amount.BigInt().Cmp(s) != 0 {
 			w.Violate("C04", "C04/point-query-ne-list", "account %s: lists locked=%s spent=%s, queries %v %v (%v %v)", a, l, s, lq, sq, err1, err2)
 		}
+		if eq, err := k.EnterpriseAccount(sdk.WrapSDKContext(ctx), &enttypes.QueryEnterpriseAccountRequest{Address: a}); err != nil || eq.Account.LockedEfund.Amount.BigInt().Cmp(l) != 0 || eq.Account.SpentEfund.Amount.BigInt().Cmp(s) != 0 {
+			w.Violate("C04", "C04/point-query-ne-list", "account %s: lists locked=%s spent=%s, EnterpriseAccount query %v (%v)", a, l, s, eq, err)
+		}
 		if new(big.Int).Add(l, s).Cmp(c) != 0 {
 			w.Violate("C04", "C04/locked-plus-spent-ne-completed", "account %s: locked %s + spent %s != completed orders %s", a, l, s, c)
 		}
@@ -827,6 +830,10 @@ func (m *monC17) check(w *World, ctx sdk.Context, q *QuerySpec) {
 			w.Violate("C17", "C17/query-error", "SupplyOf(%s) %v", d, err)
 			continue
 		}
+		// the endpoint registered over the bank module's /cosmos/bank/v1beta1/supply/by_denom route
+		if ro, err := k.SupplyOfOverwrite(gctx, &enttypes.QuerySupplyOfRequest{Denom: d}); err != nil || !ro.Amount.IsEqual(r.Amount) {
+			w.Violate("C17", "C17/bank-route-overwrite-differs", "SupplyOfOverwrite(%s)=%v err=%v, SupplyOf=%s", d, ro, err, r.Amount)
+		}
 		want := new(big.Int).Set(bank[d])
 		if d == denom {
 			want.Sub(want, locked)
@@ -887,6 +894,10 @@ func (m *monC17) check(w *World, ctx sdk.Context, q *QuerySpec) {
 		if err != nil {
 			w.Violate("C17", "C17/query-error", "TotalSupply page %d: %v", page, err)
 			return
+		}
+		// the endpoint registered over the bank module's /cosmos/bank/v1beta1/supply route
+		if ro, err := k.TotalSupplyOverwrite(gctx, &enttypes.QueryTotalSupplyRequest{Pagination: pr}); err != nil || !ro.Supply.IsEqual(r.Supply) {
+			w.Violate("C17", "C17/bank-route-overwrite-differs", "TotalSupplyOverwrite page %d = %v err=%v, TotalSupply %s", page, ro, err, r.Supply)
 		}
 		for _, c := range r.Supply {
 			seen[c.Denom]++
